@@ -23,7 +23,7 @@ import (
 	"github.com/flamego/flamego/verifharness/internal/rt"
 )
 
-const rule = "case = a history of 3..25 operations over one Flame and, per method, one mirror route.Tree populated identically: register(static | optional-static | dynamic route over the same literals | a registered route with one segment replaced by a bind, which shadows it; through Route, Routes (comma lists, in any case), Get while AutoHead is on, or Any), headers(route, pairs) mirrored with SetHeaderMatcher, AutoHead switched on or off for good, request(method, path, headers) with paths = route instances, the route text itself used as a path, extra leading slashes, trailing slashes, the once-decoded spelling of a path with escapes, optionally an over-escaped URL.RawPath, HEAD for GET routes, method+path strings cut at another place. " +
+const rule = "case = a history of 3..25 operations over one Flame and, per method, one mirror route.Tree populated identically: register(static - over literals that include pairs differing in letter case only; now and then one of 60..72 segments - | optional-static | dynamic route over the same literals | a registered route with one segment replaced by a bind, which shadows it; through Route, Routes (comma lists, in any case), Get while AutoHead is on, or Any), headers(route, pairs) mirrored with SetHeaderMatcher, AutoHead switched on or off for good, request(method, path, headers) with paths = route instances, the route text itself used as a path, extra leading slashes, trailing slashes, the once-decoded spelling of a path with escapes, optionally an over-escaped URL.RawPath, HEAD for GET routes, method+path strings cut at another place. " +
 	"Oracle (differential, after every request): handler that ran / not-found and parameters from Flame.ServeHTTP == Tree.Match on the mirror (requests whose method is not in the standard upper-case spelling are only held to: not both a route handler and the not-found chain). " +
 	"non-trivial = a history with a request answered by a fully static, unconstrained route (the shortcut's domain) after >=2 registrations, or a request whose path contains route-syntax characters ('?', '{'), or a request that follows a headers operation on a static route; distinct by case text"
 
@@ -364,7 +364,7 @@ func showOps(ops []Op) string {
 
 // ---- generator ------------------------------------------------------------------
 
-var staticLits = []string{"a", "b", "q", "r", "users", "x.y", "a+b", "$", "%41"}
+var staticLits = []string{"a", "b", "q", "r", "users", "x.y", "a+b", "$", "%41", "A", "Users", "Q"}
 
 func genCase(t *rapid.T) Case {
 	var c Case
@@ -383,6 +383,17 @@ func genCase(t *rapid.T) Case {
 			regs = append(regs, have{"GET", d.Source()})
 			c.Ops = append(c.Ops, Op{K: "reg", M: "GET", R: d.Source()})
 		}
+	}
+	if rapid.IntRange(0, 9).Draw(t, "deep") == 0 {
+		// a fully static route of 60..72 segments, requested as it is and with one
+		// more leading slash
+		var d model.Route
+		for j, k := 0, rapid.IntRange(60, 72).Draw(t, "ndeep"); j < k; j++ {
+			d.Segs = append(d.Segs, model.Seg{Elems: []model.Elem{{Lit: "d"}}})
+		}
+		g.Add("GET", d)
+		regs = append(regs, have{"GET", d.Source()})
+		c.Ops = append(c.Ops, Op{K: "reg", M: "GET", R: d.Source()}, Op{K: "req", M: "GET", P: d.Source()}, Op{K: "req", M: "GET", P: "/" + d.Source()}, Op{K: "req", M: "GET", P: d.Source() + "/d"})
 	}
 	lit := func() model.Seg {
 		return model.Seg{Elems: []model.Elem{{Lit: staticLits[rapid.IntRange(0, len(staticLits)-1).Draw(t, "sl")]}}}
